@@ -1,13 +1,18 @@
 (* C17 (proxy part) - effective time-outs and the retry policy.  Only statements here.  (Route actions / header mutation: group
    `router`, Props/C17_route.v.) *)
 From Coq Require Import List ZArith Bool.
+(* Model.ProxyCheck (the correspondence checker used by the case shards) is imported so that it is built with this file *)
+From MV Require Import Model.ProxyCheck.
 From MV Require Import Model.Proxy Model.ProxySpec Model.ProxyTimeout Proofs.ProxyReach Proofs.ProxyFamily Proofs.ProxyFam
-  Proofs.ProxyRefute Proofs.ProxyThm Proofs.ProxyGen Proofs.ProxyTimeout Gen.ProxyTokens.
+  Proofs.ProxyRefute Proofs.ProxyThm Proofs.ProxyGen Proofs.ProxyTimeout Proofs.ProxySrc Gen.ProxyTokens.
 Import ListNotations.
 Open Scope Z_scope.
 
 Theorem c17_retry_translator_ok : ProxyTokens_translator_ok = true.
 Proof. exact (eq_refl true). Qed.
+(* the switches read from the source on this run are the ones the family theorems were proved for *)
+Theorem c17_retry_source_is_verified_source : proxy_src = src_tree.
+Proof. exact (eq_refl src_tree). Qed.
 
 (* ---- effective time-out: protocol-supplied value if present, else the request's header, else the route's, else the default;
    per-try disabled when >= global.  For ALL values.  (Model/ProxyTimeout.v parse_timeout = the override sequence of
